@@ -729,7 +729,7 @@ PROPS = {
                       "1..8 threads and consumed by three kinds of executor - block_on, a LocalPool running several streams on one thread, and manual poll_next with a "
                       "counting waker - while 1..5 producer threads send the rest and drop the senders at seeded points. Each stream must yield exactly 0..n-1 with its own "
                       "tag and intact payloads, then None, never None before the last sender's drop began and nothing after None; after a Pending result the registered "
-                      "waker must be invoked (the consumer waits for it instead of polling speculatively).",
+                      "waker must be invoked (the consumer waits for it instead of polling speculatively). Idle-burst scenarios (a burst of conversions, then one message at a time, last-created stream first) and pair storms (two conversions 0..150 us apart, the second receiver already holding a message, then silence) aim at registrations the routing thread overlooks.",
         "level_note": "'Never ends' and 'waker never invoked' are decided by the logical wait (20 s grace, then all other threads asleep without CPU use).",
         "technique": "runtime monitoring: per-stream item logs with stamps and a counting waker across three executor kinds, logical hang detection for end-of-stream and wake-ups",
         "rule": "case = one scenario of streams; distinct = per-stream (consumer kind, min(queued-before,3), min(messages,3)) sequence with the converting-thread count; "
@@ -760,7 +760,7 @@ PROPS = {
         "require": c17_require,
         "level": "exploration",
         "level_text": "Exploration: fresh routers with 0..16 live routes (callback with drop guards, crossbeam-forwarding) and producers sending continuously are stopped "
-                      "either by shutdown() from 1..4 threads racing add_route from 0..3 others, or by dropping the proxy, while the producers keep sending and further "
+                      "either by shutdown() from 1..4 threads racing add_route from 0..8 others (single offers, or up to 150 prepared routes offered back to back per thread while the first shutdown waits for a seeded number of offers), or by dropping the proxy, while the producers keep sending and further "
                       "routes are offered afterwards. Stamped logs decide: no callback invocation starts after shutdown's first return; every previously registered "
                       "guard fired by then (proxy drop: eventually, by the logical wait); racing routes are dropped by the time both calls returned; routes offered "
                       "after the stop are dropped uninvoked; crossbeam consumers are disconnected; the process-wide panic hook stayed silent; every stop call returned.",
@@ -773,11 +773,11 @@ PROPS = {
         "plan": c16_plan,
         "require": c16_require,
         "level": "exploration",
-        "level_text": "Exploration: raw (bytes, channels, regions) triples are injected at platform level into a channel whose receiver is re-typed for each of 13 expected "
+        "level_text": "Exploration: raw (bytes, channels, regions) triples are injected at platform level into a channel whose receiver is re-typed for each of 14 expected "
                       "types (integers, strings, vectors, option, enum, sender, receiver, region, a struct nesting vectors of endpoints/regions, a pair of senders): random "
                       "bytes 0..4096, valid encodings, bit-flipped / truncated / extended / overwritten encodings, encodings with out-of-range, far, usize::MAX and duplicate "
                       "attachment indices, valid encodings of another type, each with 0..8 attachments, decoded through try_recv and through a receiver set, plus "
-                      "receive-and-drop without decoding. The outcome must be Ok or Err - no panic (hook + catch_unwind), no abort (exit status with a journal of the last "
+                      "receive-and-drop without decoding. The 14th type receives, inside its own deserialisation, a mismatched inner message from the receiver it has just decoded: the inner decode must fail or yield its own attachment, never one of the enclosing message, which must still decode with its endpoints in place. The outcome must be Ok or Err - no panic (hook + catch_unwind), no abort (exit status with a journal of the last "
                       "input); endpoints in an Ok value are identity-probed against the attached set; afterwards every attachment's counterpart must observe closure and "
                       "the descriptor count must match. Debug, release and memfd builds.",
         "level_note": "OS transports only (the in-process backend panics on type confusion by design and is outside the property's anchors). A receiving end referenced "
@@ -794,7 +794,7 @@ PROPS = {
         "level_text": "Sweep: attachment counts 0..300 (every count, in both tiers) x mixtures {senders, receivers, "
                       "regions, mixed} x data {empty, small, exactly one packet, one byte over, multi-packet}. A refused send must leave the channel usable and retain "
                       "nothing; an accepted send must be received (watched by the logical hang rule) with every attachment identity-probed in position. The grid is "
-                      "finite and run completely in the thorough tier.",
+                      "finite and run completely in the thorough tier. The boundary region 56..70 is repeated with the first one or two transmission attempts refused with ENOBUFS by the interposer (the fallback to fragmenting adds a descriptor).",
         "level_note": "Packets are made small with a reported SO_SNDBUF so both ends can run in one thread. The in-process transport has no limit and must deliver everything it accepts.",
         "technique": "runtime monitoring: exhaustive attachment-count sweep with identity probes, refusal/usable-afterwards oracle and hang detection on the receive",
         "rule": "case = (mixture, data class, attachment count, reported SO_SNDBUF); distinct = that tuple; all are non-trivial",
@@ -840,7 +840,7 @@ PROPS = {
                       "surviving sender {0,1} x observer {recv, try_recv, select, router}, an exec'd child is SIGKILLed before the k-th socketpair/sendmsg/send/close "
                       "of the target send for every k from 0 to one past the last call (learned by a counting run); the observer runs before or after the crash "
                       "in alternation. Earlier messages must arrive intact, the target intact or not at all, Disconnected/closure only without a survivor, the "
-                      "survivor's later messages must arrive in order and the observer must not wait forever (logical hang rule).",
+                      "survivor's later messages must arrive in order and the observer must not wait forever (logical hang rule). A target whose send returned in the child (the child records it before exiting) must be delivered; when the target carries attachments the survivor's messages carry their own, checked by content.",
         "level_note": "Crash points are the libc-level system-call boundaries of the sending thread; a crash in the middle of a system call is not distinguishable "
                       "from one before or after it at this level (the kernel completes or does not start a sendmsg). Packets are made small with a reported SO_SNDBUF of 8 KiB.",
         "technique": "runtime monitoring: exhaustive crash-point injection (SIGKILL before the k-th interposed call) with an outcome oracle over four observer kinds",
@@ -855,7 +855,7 @@ PROPS = {
                       "failures of socketpair/bind/listen/setsockopt and sends to closed receivers - run while a pest thread churns foreign descriptors; after every "
                       "program, with every handle dropped, the descriptor table, shared mappings, TMPDIR and /dev/shm must equal the baseline; the interposer's ledger "
                       "alarms on a close of a foreign descriptor, a close returning EBADF and a munmap whose length differs from the mmap; at seeded points every "
-                      "non-baseline descriptor must be close-on-exec and an exec'd unrelated child must see none. Debug, release and memfd builds.",
+                      "non-baseline descriptor must be close-on-exec and an exec'd unrelated child must see none. A spawn race execs unrelated children while four threads create channels, regions, servers and unpack descriptors without pause (a descriptor inheritable for an instant shows up in a child's listing), and the crash grid of C12 (sender killed before each system call of a send with attachments) is judged on the receiving process's descriptors and mappings. Debug, release and memfd builds.",
         "level_note": "Leaks are judged at quiescent points against a post-warm-up baseline taken in the same process; the global ROUTER and lazily initialised "
                       "library state are warmed up first. Router stop paths are exercised by C17.",
         "technique": "runtime monitoring: /proc descriptor-table and mapping balance at quiescent points, LD_PRELOAD fd/mmap ledger with foreign-descriptor churn, FD_CLOEXEC and exec'd-child inheritance probes, fault-injected error paths",
@@ -870,7 +870,7 @@ PROPS = {
                       "thread that sends small or multi-packet messages or drops on a seeded schedule; every call and every send is stamped and the history is checked "
                       "offline (message only after it was sent and in order; Empty only if nothing was completely sent before the call - or, for timed calls, 50 ms "
                       "before the deadline; Disconnected only after the drop began and after the last message; timed Empty not earlier than floor(d) ms - 1 ms); "
-                      "afterwards a blocking recv must be observed asleep in recvmsg and then return exactly the message sent next.",
+                      "afterwards a blocking recv must be observed asleep in recvmsg and then return exactly the message sent next. In half of the cases the receiver is first moved through another channel.",
         "level_note": "Timing clauses use stamp order with explicit tolerances (1 ms clock tolerance, 50 ms lateness margin) so that machine load cannot flip a verdict; "
                       "'blocks' is decided by the logical hang rule. IpcBytesReceiver has no timed receive and is covered through try_recv in C01.",
         "technique": "runtime monitoring: stamped call/return histories of non-blocking and timed receives checked offline against the sender's stamped schedule, plus a /proc-observed poison probe",
@@ -913,7 +913,7 @@ PROPS = {
         "level_text": "Exploration: fresh routers (and the global ROUTER in dedicated processes) get 1..32 routes of all three kinds registered from 1..8 threads while "
                       "0..50 messages per route are queued before registration or in flight and senders drop at seeded points; every callback logs (route, tag, seq, stamp) "
                       "and owns a drop guard; the log must be exactly 0..n-1 per route with matching tags, the guard must fire once, after the last delivery and not "
-                      "before the last sender's drop began; crossbeam routes must yield the same sequence and then disconnect.",
+                      "before the last sender's drop began; crossbeam routes must yield the same sequence and then disconnect. Swarm batches (thousands of tiny scenarios each ending with a registration that nothing follows), storm batches (120..400 routes registered back to back) and pair batches (two registrations 0..120 us apart on an idle router, the second with a message already queued, then silence) aim at lost wake-ups; every scenario runs under the per-case logical-hang watchdog.",
         "level_note": "Completion is awaited with a 20 s grace after every sender was dropped and every helper joined; 'never dropped' is only declared when all "
                       "other threads of the process are asleep without CPU use (nothing can happen any more). Proxies are leaked so that C17's stop path does not interfere.",
         "technique": "runtime monitoring: callback event log with drop guards and stamps, offline per-route sequence/tag/guard checker, delay injection around the proxy's sends",
@@ -943,7 +943,7 @@ PROPS = {
         "level_text": "Exploration: thousands of regions with lengths dense around 0, 1, page+-1, 2 pages+-1 plus log-uniform lengths up to 32 MiB, created "
                       "by both constructors, cloned 0..3 times, sent 1..8 per message in shuffled order between endpoints, are compared byte for byte in "
                       "the creator, every clone, the receiving process (same process or an exec'd child reporting digests) and again after the sender's "
-                      "copies and the carrying channel are gone; three backings (shm_open, memfd, in-process).",
+                      "copies and the carrying channel are gone; three backings (shm_open, memfd, in-process). Before anything else, forked relatives of the driver (which share its cached pid and region counter) create regions at the same time while the interposer keeps every new shm name linked 300 us longer.",
         "level_note": "Contents are regenerated from a per-region id, so any length or content mix-up between regions is visible; platform-level "
                       "zero-length regions belong to C18.",
         "technique": "runtime monitoring: content oracle on shared-memory regions across clones, processes and drop orders, three backings",
@@ -976,7 +976,7 @@ PROPS = {
                       "held by threads and by another process - are released from 1..4 threads in seeded orders while a blocked, timed or polling "
                       "observer watches; safety is decided on stamps, the wake-up clause by the logical hang rule (DESIGN 3.5). A second family runs "
                       "hundreds of thousands of tiny channels whose only sender sends one message and drops at once while the receiver polls "
-                      "(try_recv, timed, blocking, receiver set): the message must precede the disconnection.",
+                      "(try_recv, timed, blocking, receiver set): the message must precede the disconnection. In a quarter of those rounds the message carries a sender, which must arrive and work.",
         "level_note": "Liveness is restated as bounded progress: after every release returned and every helper was joined/reaped the observer must "
                       "return; 'stuck' is only declared for a thread asleep in one system call with no CPU use. Cyclic channel families are excluded by the property.",
         "technique": "runtime monitoring: executable reference model replayed along stamped histories + racing finale with logical hang detection",
@@ -988,7 +988,7 @@ PROPS = {
         "plan": c19_plan,
         "post": c19_post,
         "level": "translation_validation",
-        "level_text": "Differential execution: seeded single-threaded programs (<=60 operations, <=6 live channels) are generated from an executable "
+        "level_text": "Differential execution: seeded single-threaded programs (<=60 operations, <=6 live channels, now and then a burst of 34..70 messages on a receiver-set member) are generated from an executable "
                       "ideal-FIFO model with handle counting; every step's result on the OS transport, the memfd build and the in-process transport "
                       "is compared with the model's prediction, and the normalised traces of the three builds are compared with each other.",
         "level_note": "Only programs whose every outcome the model defines are generated (no blocking call that would block, one connect per "
